@@ -2271,6 +2271,9 @@ class SimpleGroupContext(GroupContext, CanProtect, CanUnprotect, SecurityContext
         except KeyError:
             raise DecodeError("Group server failed to send own sender KID")
 
+        if self.recipient_public_keys.get(sender_kid, DETERMINISTIC_KEY) is DETERMINISTIC_KEY:
+            raise DecodeError("Response from a sender that is not a regular group member")
+
         if COSE_COUNTERSIGNATURE0 in unprotected_bag:
             return _GroupContextAspect(self, sender_kid)
         else:
@@ -2573,9 +2576,13 @@ class _DeterministicProtectProtoAspect(
                 "Response to deterministic request came from insecure pairwise context"
             )
 
-        return _GroupContextAspect(
-            self.groupcontext, unprotected_bag.get(COSE_KID, self.target_server)
-        )
+        sender_kid = unprotected_bag.get(COSE_KID, self.target_server)
+        if (
+            self.groupcontext.recipient_public_keys.get(sender_kid, DETERMINISTIC_KEY)
+            is DETERMINISTIC_KEY
+        ):
+            raise DecodeError("Response from a sender that is not a regular group member")
+        return _GroupContextAspect(self.groupcontext, sender_kid)
 
     def _get_sender_key(self, outer_message, aad, plaintext, request_id):
         if outer_message.code.is_response():
